@@ -9,6 +9,7 @@ import shapefile
 import shapely
 
 from harness import util
+from harness.gen import c15_extra as X
 from harness.gen import clipgen as CG
 from harness.gen import datasets as G
 from harness.gen import geomspec as S
@@ -27,7 +28,10 @@ RULE = ('datasets of every convention (holes, invalid cells, multi-kind native i
         'under one base name side by side); a size ladder of large datasets past 2^10, 2^12, 2^13, 10^4 cells (thorough: '
         '2^16) of rotating conventions; oracle: the cells with polygons, in linear order, identical coordinates, linear_index '
         'and native index identify the same cell (ravel_index(index) == linear_index, and index == the row-major position '
-        'in the generator\'s grid). Non-trivial: a dataset with at least one cell without polygon or a kinded native index; '
+        'in the generator\'s grid); export histories: two or three datasets exported one after the other in the same '
+        'process, the later ones siblings of the first (same convention and number of cells under another grid shape, '
+        'same shape with other coordinates, the same dataset again), every one of them read back and held against its own '
+        'dataset. Non-trivial: a dataset with at least one cell without polygon or a kinded native index; '
         'distinct by (recipe, format).')
 TRUSTED = ['json, pyshp, shapely WKT/WKB readers and writers (byte formats are the libraries\' business)']
 ASSUMPTIONS = ['shapefile rings are compared up to rotation and direction (the format prescribes ring orientation); other formats exactly',
@@ -162,7 +166,10 @@ def read_back(ctx, d, wd, path, fmt, who='the export'):
     return None
 
 
-def examine(ctx, recipe, items, export=None) -> None:
+def examine(ctx, recipe, items, export=None, before=None) -> None:
+    """export the dataset of `recipe` in every format, read every file back, hold it against the generator's ground
+    truth and queue the model's lines.  `before`: the cases ({'recipe', 'export'}) exported earlier in the same history
+    (recorded with the case so that a replay goes through the same sequence of exports)"""
     import pathlib
     from emsarray.operations import geometry
     from emsarray.cli import main as cli_main
@@ -177,6 +184,9 @@ def examine(ctx, recipe, items, export=None) -> None:
     spec = built.grids_spec()
     style = STYLE[built.conv]
     desc = {'recipe': recipe, 'export': export}
+    if before:
+        desc['before'] = before
+        ctx.count(f'history:position-{len(before) + 1}')
     expected = [(n, q) for n, q in enumerate(kept) if q is not None]
     if any(q is None for q in kept) or style == 'kinded':
         ctx.nontrivial(str(recipe))
@@ -271,6 +281,15 @@ def examine(ctx, recipe, items, export=None) -> None:
 
 def oracle_features(ctx, desc, fmt, c, built, expected, got, exact: bool) -> None:
     d = {**desc, 'format': fmt}
+    if desc.get('before'):
+        # (the message says where in a history the export stood; the signature is that of the clause)
+        inner = ctx
+
+        class _Told:
+            def oracle_fail(self, signature, dd, message):
+                inner.oracle_fail(signature, dd, f"{message} (exported after {len(desc['before'])} other dataset(s) "
+                                                 'of the same convention in this process)')
+        ctx = _Told()
     if len(got) != len(expected):
         ctx.oracle_fail(f'{fmt}-feature-count', d, f'{len(got)} features for {len(expected)} cells with polygons')
         return
@@ -389,6 +408,22 @@ def run(ctx) -> None:
         recipe = large_recipe(rng, G.CONVS[(first + k) % len(G.CONVS)], rng.randint(lo, hi))
         export = {**random_export(rng, k), 'cli': None}
         ctx.guarded(lambda: examine(ctx, recipe, items, export), {'recipe': recipe, 'export': export})
+    # ---- export histories: datasets exported one after the other in this process; each is held against its own
+    # dataset exactly as a dataset exported alone is (what an earlier export leaves behind is no input of a later one) ----
+    for k in range(ctx.budget(15, 90)):
+        conv = G.CONVS[k % len(G.CONVS)]
+        kw = {'max_w': 3, 'max_h': 2, 'coords_as': 'vars'} if conv == 'ugrid' else {'max_n': 4}
+
+        def fresh():
+            return G.random_recipe(rng, conv, ctx.tier, **kw)
+        history = X.random_history(rng, fresh(), fresh, rng.choice([2, 3, 3]))
+        before: list = []
+        for how, recipe in history:
+            export = random_export(rng, k)
+            ctx.count(f'history:{how}')
+            ctx.guarded(lambda: examine(ctx, recipe, items, export, list(before)),
+                        {'recipe': recipe, 'export': export, 'before': list(before)})
+            before.append({'recipe': recipe, 'export': export})
     if ctx.searching and ctx.driver is None:
         ctx.evaluated(len(items))
         return
@@ -400,7 +435,13 @@ def run_one(ctx, inp):
     items: list = []
     sub = type(ctx)(ctx.prop, ctx.tier, ctx.seed)
     sub.known = []
-    examine(sub, inp['recipe'], items, inp.get('export'))
+    # the exports that went before this one in its history, in order, in this process
+    for earlier in inp.get('before') or []:
+        try:
+            examine(type(ctx)(ctx.prop, ctx.tier, ctx.seed), earlier['recipe'], [], earlier.get('export'))
+        except Exception:
+            pass
+    examine(sub, inp['recipe'], items, inp.get('export'), inp.get('before'))
     for line, impl, d in items:
         if d.get('format') == inp.get('format') and inp.get('op') in (None, line):
             model = ctx.model([line])[0] if ctx.driver else None
